@@ -250,6 +250,28 @@ def x6_for_ref(s):
         s = s[:m.start()] + new + s[e + 1:]
 
 
+def x6b_for_slice(s, names):
+    """X6b: `for x in S {` where S is a slice named by the card (`sliceiter=S`) -> index loop with `let x = &S[i];`"""
+    hits = []
+    for nm in names:
+        pat = re.compile(r'\bfor (\w+) in %s \{' % re.escape(nm))
+        while True:
+            m = pat.search(s)
+            if not m:
+                break
+            k = _fresh()
+            b = m.end() - 1
+            e = match_close(s, b)
+            body = s[b + 1:e]
+            if re.search(r'\bcontinue\b', body):
+                raise ValueError('X6b: loop body contains continue')
+            new = ("let __s%d = %s; let mut __i%d: usize = 0;\n        while __i%d < __s%d.len() {\n            let %s = &__s%d[__i%d];%s    __i%d += 1;\n        }"
+                   % (k, nm, k, k, k, m.group(1), k, k, body, k))
+            hits.append(s[m.start():m.end()])
+            s = s[:m.start()] + new + s[e + 1:]
+    return s, hits
+
+
 # ---------------------------------------------------------------- X17 iterator searches
 def _closure_plus(s, i, rt):
     params, body, end = _closure_at(s, i)
